@@ -14,6 +14,7 @@
 From Coq Require Import ZArith List Bool.
 Import ListNotations.
 From V Require Import Base.Tree Base.Bytes Gen.GenPkg Rx.Model Rx.Spec C15.Model Gen.GenC01 C01.Model C01.Spec Gen.GenC12 C12.Model.
+From V Require C13.Closers.
 Open Scope Z_scope.
 
 (* ------------------------------------------------------------------ decoding of harness inputs *)
@@ -283,6 +284,15 @@ Definition sp_conc (i o : tree) : bool :=
   (t_int (t_nth 1 o) =? t_int (t_nth 2 i)) &&
   match t_nth 2 o with TL [] => true | _ => false end.
 
+(* ------------------------------------------------------------------ fn 5: several goroutines closing ONE channel *)
+(* "under every interleaving of channel creation, sends, receives and closes": 2..3 goroutines call Close on the same
+   logical channel, Conn.Close among them, while the peer is slow to accept the teardown packet (all of them have passed
+   the first `closed` check before any takes the exclusive lock).  Model and predicate: C13/Closers.v (the system of n
+   closers, shared with C13); here the predicate also reads the packet numbers of the teardown packets in the schedule
+   that determines them (one closer after the other: 1, 2, ... after the SETUP packet's 0). *)
+Definition run_conc_close (i : tree) : tree := Closers.run_cclose i.
+Definition sp_conc_close (i o : tree) : bool := Closers.sp_cclose true i o.
+
 (* ------------------------------------------------------------------ dispatch *)
 Definition run (fn : Z) (i : tree) : tree :=
   match fn with
@@ -290,6 +300,7 @@ Definition run (fn : Z) (i : tree) : tree :=
   | 2 => run_tx i
   | 3 => run_conc i
   | 4 => run_setup i
+  | 5 => run_conc_close i
   | _ => tbad
   end.
 
@@ -299,5 +310,6 @@ Definition spec (fn : Z) (i o : tree) : bool :=
   | 2 => sp_tx i o
   | 3 => sp_conc i o
   | 4 => sp_setup i o
+  | 5 => sp_conc_close i o
   | _ => false
   end.
